@@ -42,7 +42,7 @@ let find_handler prop = reg prop "Find" (fun ver args obs ->
     (* C15: digits consulted: no further than the later of the sequence's start and the end of the last reported
        match, plus the bounded read-ahead; v3 with n <= 0 consults nothing beyond the constructor's first-digit probe *)
     let spec =
-      if prop <> "C15" || spec <> None then spec
+      if (prop <> "C15" && prop <> "C06") || spec <> None then spec
       else (match extra with
         | [c] when kind = 1 && ver = "v3" && fn = 1 && (match n with Zpos _ -> false | _ -> true) ->
           (* the zero-demand clause holds on every kind of sequence: only the constructor's first-digit probe *)
@@ -67,3 +67,4 @@ let () = find_handler "C09"
 let () = find_handler "C15"
 let () = find_handler "C05"
 let () = find_handler "C14"
+let () = find_handler "C06"
